@@ -80,7 +80,8 @@ def check(run, P):
     run.rule("C14.fixpoint",
              "the fixed-point loop resets the change latch before each sweep and "
              "leaves the loop only under 'not result.is_changed()'; each sweep works "
-             "on a freshly built list", minimum=3)
+             "on a freshly built list; inference fails only in a sweep that changed "
+             "nothing", minimum=4)
 
     run.rule("C14.operands",
              "in KindInferenceMapper every operand of a sum/product contributes: the "
@@ -94,7 +95,19 @@ def check(run, P):
              "phase names and phase statement lists handed to SymbolKindFinder are "
              "derived from the same sequence in the same order, and are paired by "
              "zip() inside", minimum=3)
+    run.rule("C14.eq", "kinds are compared by class and by every constructor "
+             "argument (the table update skips the join for an entry that compares "
+             "equal)", minimum=4)
+    run.rule("C14.defer", "a built-in that cannot say its result kinds for the "
+             "(possibly provisional) argument kinds defers the statement, whatever "
+             "it raised", minimum=1)
+    run.rule("C14.sweeps", "every sweep sees every statement: the phases are copied "
+             "into lists before the first sweep", minimum=1)
+    _eq(run, P)
+    _defer(run, P)
+    _sweeps(run, P)
     _mapper(run, P)
+    _kind_attrs(run, P)
     _pairing(run, P)
 
     f = P.func(f"{DATA}.unify")
@@ -336,6 +349,22 @@ def _worklist(run, P):
                      "start of every sweep",
            why="an aliased list emptied by the first sweep makes every later sweep "
                "process nothing: a kind computed from a partial sum is never corrected")
+    fails = [n for n in g.nodes if n.kind == "stmt" and isinstance(n.ast, ast.Raise)
+             and n.ast.exc is not None and "RuntimeError" in ast.unparse(n.ast.exc)
+             and _inside(outer, n.ast)]
+    def positive_changed(t):
+        conj = t.values if isinstance(t, ast.BoolOp) and isinstance(t.op, ast.And) else [t]
+        return any(isinstance(c, ast.Call) and dotted(c.func) == f"{res}.is_changed" for c in conj)
+
+    gates = [n for n in g.nodes if n.kind == "test" and isinstance(n.label, ast.If)
+             and positive_changed(n.ast) and _always_leaves(n.label.body)]
+    ok = bool(fails) and bool(gates) and not g.always_preceded(fails, gates)
+    run.ob("C14.fixpoint", F, fails[0].ast if fails else outer, ok,
+           construct="'failed to infer kinds' is raised only after "
+                     "'if <no progress> and result.is_changed(): <leave the sweep>'",
+           why="left-over statements that made no progress may go through once the "
+               "kinds that changed in this sweep have been propagated by the next one; "
+               "failing at once makes success depend on the statement order")
     breaks = [s_ for s_ in func_body_stmts(outer) if isinstance(s_, ast.Break)
               and _innermost_loop(outer, s_) is outer]
     ok = bool(breaks)
@@ -463,6 +492,61 @@ def _mapper(run, P):
                        "then makes inference fail for some statement orders only")
 
 
+def _always_leaves(block):
+    if not block:
+        return False
+    last = block[-1]
+    if isinstance(last, (ast.Raise, ast.Return, ast.Continue, ast.Break)):
+        return True
+    if isinstance(last, ast.If):
+        return _always_leaves(last.body) and _always_leaves(last.orelse)
+    return False
+
+
+def _kind_attrs(run, P):
+    """`K.is_real_valued` on a kind obtained from self.rec(...) only after a test
+    that the kind has the attribute."""
+    K = P.cls(f"{DATA}.KindInferenceMapper")
+    n = 0
+    for name, m in sorted(K.methods.items()):
+        if not name.startswith("map_"):
+            continue
+        kinds = {x.targets[0].id for x in ast.walk(m.node)
+                 if isinstance(x, ast.Assign) and len(x.targets) == 1
+                 and isinstance(x.targets[0], ast.Name) and isinstance(x.value, ast.Call)
+                 and dotted(x.value.func) == "self.rec"}
+        if not kinds:
+            continue
+        g = CFG(m.node)
+        for k in sorted(kinds):
+            uses = [nd for nd in g.nodes if nd.ast is not None and any(
+                isinstance(x, ast.Attribute) and x.attr == "is_real_valued"
+                and isinstance(x.value, ast.Name) and x.value.id == k
+                for fr in own_fragments(nd) for x in walk_fragment(fr))]
+            if not uses:
+                continue
+            guards = [nd for nd in g.nodes if nd.kind == "test" and isinstance(nd.label, ast.If)
+                      and isinstance(nd.ast, ast.UnaryOp) and isinstance(nd.ast.op, ast.Not)
+                      and isinstance(nd.ast.operand, ast.Call)
+                      and dotted(nd.ast.operand.func) == "isinstance"
+                      and dotted(nd.ast.operand.args[0]) == k
+                      and {dotted(t_) for t_ in (nd.ast.operand.args[1].elts
+                                                 if isinstance(nd.ast.operand.args[1], ast.Tuple)
+                                                 else [nd.ast.operand.args[1]])} <= {"Array", "Scalar"}
+                      and _always_leaves(nd.label.body)]
+            ok = bool(guards) and not g.always_preceded(uses, guards)
+            n += 1
+            run.ob("C14.provisional", m, uses[0].ast, ok,
+                   construct=f"{name}: <kind>.is_real_valued is read only after "
+                             f"'if not isinstance(<kind>, Array/Scalar): <raise on every path>'",
+                   why="during a sweep the operand may hold a provisional kind without "
+                       "that attribute (the Integer of a partial sum): AttributeError "
+                       "aborts inference for some statement orders only, where deferring "
+                       "(UnableToInferKind) lets the next sweep see the corrected kind")
+    if n == 0:
+        raise AnalysisError("KindInferenceMapper: no <kind>.is_real_valued access found")
+
+
 def _inside_body(ifnode, node):
     return any(x is node for s_ in ifnode.body for x in ast.walk(s_))
 
@@ -542,3 +626,91 @@ def _pairing(run, P):
     run.ob("C14.pairing", F, loops[0] if loops else F.node, ok,
            construct=f"{len(loops)} loops over the phases, each 'zip({n_}, {p_})'",
            why="the two parameters are parallel lists")
+
+
+def _eq(run, P):
+    base = P.cls(f"{DATA}.SymbolKind")
+    eq = base.methods.get("__eq__")
+    hs = base.methods.get("__hash__")
+    ok = eq is not None and hs is not None \
+        and "type(self) is type(other)" in ast.unparse(eq.node) \
+        and "self.__getinitargs__() == other.__getinitargs__()" in ast.unparse(eq.node) \
+        and "self.__getinitargs__()" in ast.unparse(hs.node) and "type(self)" in ast.unparse(hs.node)
+    run.ob("C14.eq", base, eq.node if eq else base.node, ok,
+           construct="SymbolKind.__eq__/__hash__: same class and equal __getinitargs__()",
+           why="equality is what the table update and the change latch rely on")
+    for c in sorted(P.subclasses(base, modules={DATA}), key=lambda c: c.name):
+        init = c.methods.get("__init__")
+        params = [a for a in init.params if a != "self"] if init is not None else []
+        gia = c.methods.get("__getinitargs__")
+        if not params:
+            ok = gia is None or all(isinstance(r.value, ast.Tuple) and not r.value.elts
+                                    for r in ast.walk(gia.node) if isinstance(r, ast.Return))
+            got = "()"
+        else:
+            rets = [r for r in ast.walk(gia.node) if isinstance(r, ast.Return)] if gia else []
+            got = norm(rets[0].value) if rets else "inherited ()"
+            ok = len(rets) == 1 and isinstance(rets[0].value, ast.Tuple) \
+                and [dotted(e) for e in rets[0].value.elts] == [f"self.{p}" for p in params]
+        run.ob("C14.eq", c, gia.node if gia is not None else c.node, ok,
+               construct=f"{c.name}({', '.join(params)}).__getinitargs__() = {got}",
+               why="with an argument missing, Array(real) == Array(complex): the table "
+                   "keeps whichever kind arrived first and the result depends on the "
+                   "statement order")
+
+
+def _defer(run, P):
+    f = P.func(f"{DATA}.KindInferenceMapper.map_generic_call")
+    tries = [t for t in ast.walk(f.node) if isinstance(t, ast.Try) and any(
+        isinstance(x, ast.Call) and isinstance(x.func, ast.Attribute)
+        and x.func.attr == "get_result_kinds" for s_ in t.body for x in ast.walk(s_))]
+    ok = False
+    desc = "no try around get_result_kinds"
+    if tries:
+        hs = tries[0].handlers
+        wide = [h for h in hs if h.type is None or dotted(h.type) in ("Exception", "BaseException")]
+        desc = ", ".join(norm(h.type) if h.type is not None else "bare" for h in hs)
+        ok = bool(wide) and all(
+            isinstance(h.body[-1], ast.Raise) and "UnableToInferKind" in ast.unparse(h.body[-1])
+            for h in wide)
+    run.ob("C14.defer", f, tries[0] if tries else f.node, ok,
+           construct=f"get_result_kinds(...) under 'except {desc}' -> raise UnableToInferKind",
+           why="argument kinds are provisional during a sweep (an array that is the "
+               "target of 'v + i' is an Integer for a while): whatever a built-in raises "
+               "on them - AttributeError on .is_real_valued, say - has to defer the "
+               "statement, or inference aborts for some statement orders only")
+
+
+def _sweeps(run, P):
+    F = P.func(f"{DATA}.SymbolKindFinder.__call__")
+    p_ = F.params[2]
+    g = CFG(F.node)
+    # phases = [list(phase) for phase in phases]  or the explicit loop
+    copies = []
+    for n in g.nodes:
+        if n.kind != "stmt" or n.ast is None:
+            continue
+        a = n.ast
+        if isinstance(a, ast.Assign) and dotted(a.targets[0]) == p_:
+            v = a.value
+            if isinstance(v, ast.ListComp) and isinstance(v.elt, ast.Call) \
+                    and dotted(v.elt.func) in ("list", "tuple") and norm(v.generators[0].iter) == p_:
+                copies.append(n)
+            elif isinstance(v, ast.Name):
+                # filled by a loop 'for ph in phases: <v>.append(list(ph))'
+                fills = [x for x in ast.walk(F.node) if isinstance(x, ast.For)
+                         and norm(x.iter) == p_ and any(
+                             isinstance(y, ast.Call) and dotted(y.func) == f"{v.id}.append"
+                             and y.args and isinstance(y.args[0], ast.Call)
+                             and dotted(y.args[0].func) in ("list", "tuple")
+                             for y in ast.walk(x))]
+                if fills:
+                    copies.append(n)
+    outer = [n for n in g.nodes if n.kind == "test" and isinstance(n.label, ast.While)
+             and isinstance(n.ast, ast.Constant) and n.ast.value is True]
+    ok = bool(copies) and bool(outer) and not g.always_preceded(outer, copies)
+    run.ob("C14.sweeps", F, copies[0].ast if copies else F.node, ok,
+           construct=f"{p_} = [list(phase) for phase in {p_}] before the fixed-point loop",
+           why="the callers pass generators (get_statements_in_ast): consumed by the "
+               "first sweep, later sweeps see nothing and kinds computed from partial "
+               "sums are never corrected")
